@@ -94,6 +94,9 @@ def work(ident, prop, tier, tree):
             out["functions"].append({"qualname": q, "file": os.path.relpath(fi.path, tree), "lines": list(fi.lines),
                                      "sha256": fi.sha256})
         replayed = set()
+        # static (syntactic) checks attached to a contract, e.g. frame conditions of abstracted methods
+        for kk2 in [k]:
+            pass
         for o in res.obligations:
             discharge(o, timeout)
             rec = {"id": o.oid, "kind": o.kind, "path": o.path, "status": o.status, "seconds": round(o.seconds, 4),
@@ -221,6 +224,28 @@ def main(argv=None):
         futs = [ex.submit(work, k.ident, prop, tier, tree) for k in ks]
         for f in futs:
             results.append(f.result())
+    # ---- static (syntactic) checks of abstracted functions, e.g. frame conditions --------------------
+    from pyvc.frontend import Repo as _Repo
+    reg = load_contracts()
+    _repo = None
+    for q, lst in reg.items():
+        for k in lst:
+            if prop in k.props and hasattr(k, "static_checks"):
+                _repo = _repo or _Repo(tree)
+                try:
+                    checks, fi = k.static_checks(_repo)
+                    rec = {"ident": k.ident + "{static}", "error": None, "bounded": None, "paths": 0, "aux_paths": 0, "infeasible": 0,
+                           "loops": {}, "seconds": 0, "canaries": [], "assumptions": [],
+                           "functions": [{"qualname": fi.qualname, "file": os.path.relpath(fi.path, tree), "lines": list(fi.lines),
+                                          "sha256": fi.sha256}],
+                           "obligations": [{"id": f"{k.ident}/{label}", "kind": "frame", "path": "", "status": "proved" if ok else "refuted",
+                                            "seconds": 0.0, "backend": "static", "meta": {"detail": detail},
+                                            "replay": {"reproduced": None, "detail": detail}} for (label, ok, detail) in checks]}
+                except Exception as e:
+                    rec = {"ident": k.ident + "{static}", "error": f"unsupported: static check failed: {e}", "bounded": None, "paths": 0,
+                           "aux_paths": 0, "infeasible": 0, "loops": {}, "seconds": 0, "canaries": [], "assumptions": [],
+                           "functions": [], "obligations": []}
+                results.append(rec)
     # ---- classify ----------------------------------------------------------------------
     findings = [f for f in load_findings() if f.get("property") == prop]
     open_f = [f for f in findings if f.get("status") == "open"]
